@@ -130,6 +130,7 @@ class Patterns:
     unicode_escape = LazyPattern(r'(?:\\u([0-9A-Fa-f]{4})|\\U([0-9A-Fa-f]{8}))')
     wrong_escape = LazyPattern(r'%(?![a-fA-F\d]{2})')
     xml_newlines = LazyPattern('\r\n|\r|\n')
+    xsd_number = LazyPattern(r'^[+-]?(?:[0-9]+(?:\.[0-9]*)?|\.[0-9]+)(?:[Ee][+-]?[0-9]+)?$')
 
     # Regex patterns related to names and namespaces
     namespace_uri = LazyPattern(r'{([^}]+)}')
@@ -290,7 +291,7 @@ def get_double(value: FloatArgType, xsd_version: str | None = None) -> float:
         if value in NUMERIC_INF_OR_NAN and (xsd_version != '1.0' or value != '+INF'):
             if value == 'NaN':
                 return math.nan  # for NaN use the predefined instance to keep identity
-        elif value.lower() in INVALID_NUMERIC:
+        elif Patterns.xsd_number.match(value) is None:
             raise ValueError(f'invalid value {value!r} for xs:double/xs:float')
     elif math.isnan(value):
         return math.nan
